@@ -47,7 +47,17 @@ def wfc_unique_att(facts):
     name.  Comparing neighbours only (windows(2)) misses a='1' b='2' a='3'; comparing local parts only refuses a:id next
     to b:id, which is well-formed."""
     import staleidx
-    f = facts.fn("xml_info::XmlElement::node")
+    why_not = "no comparison of every attribute name with the earlier ones and an error exit in XmlElement::node"
+    for f in facts.family("xml_info::XmlElement::node"):      # the constructor and the private pieces it is split into
+        r = _unique_att_in(facts, f)
+        if r is not None:
+            if r[0] or r[1] != why_not:
+                return r
+    return False, why_not
+
+
+def _unique_att_in(facts, f):
+    import staleidx
     seq = staleidx._walk_parents(f["body"])
     for i, (n, pi, slot) in enumerate(seq):
         if n.get("k") != "If" or not any(m.get("k") == "Ret" for m in walk(n["then"])):
@@ -131,9 +141,9 @@ def wfc_entity_declared(facts):
     sites = 0
     bad = []
     for f in facts.fns.values():
-        if f["crate"] != "xml_info" or "body" not in f or f["path"].split("::")[-1] not in ("new", "node"):
-            continue
-        if f["path"] == "xml_info::XmlEntityValue::new":
+        if f["crate"] != "xml_info" or "body" not in f or "::tests::" in f["path"]:
+            continue        # every function of the crate that takes a parsed entity reference apart (whatever it is called)
+        if f["path"] in {g["path"] for g in facts.family("xml_info::XmlEntityValue::new")}:
             continue   # entity values may refer to entities declared later; checked when expanded
         for n in walk(f["body"]):
             if "pat" in n and "body" in n and n.get("k") is None:
